@@ -11,6 +11,7 @@ import (
 	"runtime"
 	"sync"
 	"sync/atomic"
+	"time"
 	"unsafe"
 
 	"nhooyr.io/websocket/internal/util"
@@ -181,6 +182,21 @@ func (c *Conn) vNcNew(r, w *mu, re, we *int64) {
 	verifNc.Store(uintptr(unsafe.Pointer(re)), [2]int64{c.v.id, 0})
 	verifNc.Store(uintptr(unsafe.Pointer(we)), [2]int64{c.v.id, 1})
 	c.vEv("NcNew", vObjID(r), vObjID(w), 0, 0)
+}
+
+// vNcT reports a deadline that is about to be set (A: direction, B: nanoseconds left, 0 for "no deadline", 1 for a time
+// that has passed); the caller holds the direction's timer mutex and has not changed anything yet.
+func (c *Conn) vNcT(ev string, a int64, t time.Time) {
+	if vOff(c.v.id) {
+		return
+	}
+	var d int64
+	if !t.IsZero() {
+		if d = int64(time.Until(t)); d <= 0 {
+			d = 1
+		}
+	}
+	VerifSink(VerifEvent{Conn: c.v.id, G: verifGID(), Ev: ev, A: a, B: d})
 }
 
 // vNcEntry reports the outcome of the entry check of a NetConn Read/Write (A: direction, B: the
